@@ -158,3 +158,212 @@ def ragged_rows_through_pack_and_unpack_special_data(n: int, k0: int, k1: int, k
     assert len(back) == n, "one entry per object"
     for m in range(n):
         check_entry(kinds[m], back[m], vals[m], "f")
+
+
+KEYS = ["alpha", "b", "zeta"]
+
+
+def subset(mask, nkeys):
+    return [KEYS[q] for q in range(nkeys) if (mask // (2 ** q)) % 2 == 1]
+
+
+def dict_round_trip(n, masks, nkeys):
+    vals = [reals("u"), reals("v"), reals("w")][:n]
+    values = [{KEYS[q]: vals[m][q] for q in range(nkeys) if KEYS[q] in subset(masks[m], nkeys)} for m in range(n)]
+    data, attrs = database.packSpecialData(np.array(values), "p")
+    assert data is not None and data.dtype != "O", "a plain numeric dataset"
+    back = database.unpackSpecialData(data, attrs, "p")
+    assert len(back) == n, "one entry per object"
+    for m in range(n):
+        got = back[m]
+        assert isinstance(got, dict)
+        assert len(got) == len(values[m]), "no key appears or disappears"
+        for q in range(nkeys):
+            if KEYS[q] in values[m]:
+                assert KEYS[q] in got and eq(got[KEYS[q]], vals[m][q]), "same value under the same key"
+            else:
+                assert KEYS[q] not in got
+
+
+@lemma(gen={"n": [1, 2, 3], "m0": (0, 3), "m1": (0, 3), "m2": (0, 3)})
+def dictionaries_of_reals_round_trip_two_keys(n: int, m0: int, m1: int, m2: int):
+    """1..3 objects, each a dictionary over any subset of two keys (4^n key patterns, including empty dictionaries and
+    differing key sets), values symbolic reals: packSpecialData (dict branch: union of keys as attribute, one row per
+    object) -> unpackSpecialData returns dictionaries with the same keys and values"""
+    n = choose(n, 1, 3)
+    m0 = choose(m0, 0, 3)
+    m1 = choose(m1, 0, 3 if n > 1 else 0)
+    m2 = choose(m2, 0, 3 if n > 2 else 0)
+    dict_round_trip(n, [m0, m1, m2][:n], 2)
+
+
+@lemma(gen={"m0": (0, 7), "m1": (0, 7)})
+def dictionaries_of_reals_round_trip_three_keys(m0: int, m1: int):
+    """two objects, any subsets of three keys (64 patterns)"""
+    m0 = choose(m0, 0, 7)
+    m1 = choose(m1, 0, 7)
+    dict_round_trip(2, [m0, m1], 3)
+
+
+@lemma(gen={"n": [2, 3], "pos": [0, 1, 2], "mask": (0, 3)})
+def dictionaries_with_an_unset_entry_are_stored_faithfully_or_rejected(n: int, pos: int, mask: int, x: float, y: float):
+    """a collection of dictionaries in which one position is unset (None): either packSpecialData refuses it with an
+    error at write time, or what it stores reads back as the same dictionaries with None at the same position - never
+    something else (on the current code the first happens: TypeError)"""
+    n = choose(n, 2, 3)
+    pos = choose(pos, 0, n - 1)
+    mask = choose(mask, 0, 3)
+    d = {KEYS[q]: (x, y)[q] for q in range(2) if KEYS[q] in subset(mask, 2)}
+    values = [None if m == pos else dict(d) for m in range(n)]
+    try:
+        data, attrs = database.packSpecialData(np.array(values), "p")
+        stored_ok = True
+    except (TypeError, ValueError):
+        stored_ok = False
+    faithful = True
+    if stored_ok:
+        back = database.unpackSpecialData(data, attrs, "p")
+        faithful = len(back) == n
+        for m in range(n):
+            if m == pos:
+                faithful = faithful and back[m] is None
+            else:
+                faithful = faithful and isinstance(back[m], dict) and len(back[m]) == len(d)
+                for q in range(2):
+                    faithful = faithful and (KEYS[q] in back[m]) == (KEYS[q] in d)
+                    if KEYS[q] in d:
+                        faithful = faithful and eq(back[m][KEYS[q]], (x, y)[q])
+    else:
+        cover("rejected at write time")
+    assert (not stored_ok) or faithful, "refused with an error, or read back the same"
+
+
+# ----------------------------------------------------------------------------- None <-> sentinel
+layout = repo("armi.bookkeeping.db.layout")
+INT_SENTINEL = -(2 ** 63) + 2  # NONE_MAP[int]; a stored value equal to it is known finding `sentinel-collision`
+
+
+def unset_pattern(n, mask):
+    return [(mask // (2 ** m)) % 2 == 1 for m in range(n)]
+
+
+@lemma(gen={"n": [1, 2, 3, 4], "mask": (0, 15), "a": (-50, 50), "b": (-50, 50), "c": (-50, 50), "d": (-50, 50)})
+def integers_with_unset_positions_round_trip(n: int, mask: int, a: int, b: int, c: int, d: int):
+    """1..4 objects, every pattern of unset positions (2^n), integer values symbolic and different from the documented
+    sentinel: replaceNonesWithNonsense gives a plain integer array (no object dtype) and replaceNonsenseWithNones gives
+    back None exactly at the unset positions and the same integers elsewhere.  All positions unset: see below."""
+    n = choose(n, 1, 4)
+    mask = choose(mask, 0, 2 ** n - 1)
+    unset = unset_pattern(n, mask)
+    assume(not all(unset))
+    vals = [a, b, c, d][:n]
+    for v in vals:
+        assume(v != INT_SENTINEL)
+    values = [None if unset[m] else vals[m] for m in range(n)]
+    stored = layout.replaceNonesWithNonsense(np.array(values, dtype=object), "p")
+    assert stored.dtype.kind == "i" and stored.shape == (n,), "a plain integer dataset of the same length"
+    back = layout.replaceNonsenseWithNones(stored, "p")
+    assert len(back) == n
+    for m in range(n):
+        if unset[m]:
+            assert back[m] is None, "unset stays unset"
+        else:
+            assert back[m] is not None and back[m] == vals[m], "a value stays the same integer"
+
+
+@lemma(gen={"n": [1, 2, 3, 4], "mask": (0, 15)})
+def reals_with_unset_positions_round_trip(n: int, mask: int, a: float, b: float, c: float, d: float):
+    """the same for real values (sentinel NaN; under A1 no stored real is NaN), including ALL positions unset (then
+    the column is written as reals)"""
+    n = choose(n, 1, 4)
+    mask = choose(mask, 0, 2 ** n - 1)
+    unset = unset_pattern(n, mask)
+    vals = [a, b, c, d][:n]
+    values = [None if unset[m] else vals[m] for m in range(n)]
+    stored = layout.replaceNonesWithNonsense(np.array(values, dtype=object), "p")
+    assert stored.dtype.kind == "f" and stored.shape == (n,), "a plain real dataset of the same length"
+    back = layout.replaceNonsenseWithNones(stored, "p")
+    assert len(back) == n
+    for m in range(n):
+        if unset[m]:
+            assert back[m] is None, "unset stays unset"
+        else:
+            assert back[m] is not None and eq(back[m], vals[m]), "a value stays the same"
+
+
+@lemma(gen={"n": [2, 3], "mask": (1, 6), "isint": [True, False], "a": (-50, 50), "b": (-50, 50), "c": (-50, 50)})
+def numbers_with_unset_positions_through_pack_and_unpack_special_data(n: int, mask: int, isint: bool, a: int, b: int, c: int,
+                                                                      x: float, y: float, z: float):
+    """the write path of Database._writeParams for a scalar parameter with some (not all) values unset:
+    np.array(values) (object dtype) -> packSpecialData -> (plain numeric dataset, attributes) -> unpackSpecialData;
+    2..3 objects, every proper pattern of unset positions, integer (not the sentinel) or real values"""
+    n = choose(n, 2, 3)
+    mask = choose(mask, 1, 2 ** n - 2)
+    unset = unset_pattern(n, mask)
+    vals = [a, b, c][:n] if isint else [x, y, z][:n]
+    if isint:
+        for v in vals:
+            assume(v != INT_SENTINEL)
+    values = [None if unset[m] else vals[m] for m in range(n)]
+    data, attrs = database.packSpecialData(np.array(values), "p")
+    assert data is not None and data.dtype.kind == ("i" if isint else "f"), "a plain dataset of the values' numeric kind"
+    back = database.unpackSpecialData(data, attrs, "p")
+    assert len(back) == n
+    for m in range(n):
+        if unset[m]:
+            assert back[m] is None, "unset stays unset"
+        else:
+            assert back[m] is not None and eq(back[m], vals[m]), "a value stays the same"
+
+
+# ----------------------------------------------------------------------------- the numpy model against numpy
+@lemma(gen={"i": (-100, 100)})
+def numpy_model_agrees_with_numpy_on_what_the_lemmas_use(x: float, i: int):
+    """cross-check of the trusted numpy mini-model (A5) additions used above: every assertion is evaluated by the model
+    (symbolic run) and by numpy itself (native run)"""
+    a = np.array([x, 1.0])
+    b = np.array([i, 2])
+    c = np.array([x, None])
+    assert a.dtype != "O" and b.dtype != "O" and c.dtype == "O"
+    assert a.dtype.kind == "f" and b.dtype.kind == "i" and c.dtype.kind == "O"
+    assert a.dtype == np.array([1.5]).dtype and a.dtype != b.dtype
+    v = np.ndarray((2,), dtype=a.dtype, buffer=a[0:])
+    assert v[0] == x and v.shape == (2,)
+    w = np.ndarray(np.array([1, 2]), dtype=b.dtype, buffer=b)
+    assert w.shape == (1, 2) and w[0][0] == i
+    try:
+        np.ndarray((3,), dtype=a.dtype, buffer=a[0:])
+        small = False
+    except TypeError:
+        small = True
+    assert small, "buffer too small"
+    try:
+        np.array([[1, 2], [3]])
+        ragged = False
+    except ValueError:
+        ragged = True
+    assert ragged, "inhomogeneous nested sequence"
+    o = np.ndarray(2, dtype=np.dtype("O"))
+    assert o[0] is None and o[1] is None and o.dtype == "O"
+    o[:] = b
+    assert o[0] == i and o.dtype == "O"
+    o[np.array([True, False])] = None
+    assert o[0] is None and o[1] == 2
+    c[np.array([1])] = 7
+    assert c.dtype == "O" and c[1] == 7, "an object array stays one"
+    assert c.astype(float).dtype.kind == "f"
+    assert np.array([i, 3], dtype=object).astype(int).dtype.kind == "i"
+    assert len(np.where([False, True, True])[0]) == 2 and np.where([False, True, True])[0][0] == 1
+    assert np.where([])[0].dtype.kind == "i" and len(np.where([False])[0]) == 0
+    n = np.array([x, np.nan, float("nan")])
+    assert n.dtype.kind == "f" and not np.isnan(n)[0] and np.isnan(n)[1] and np.isnan(n)[2] and np.isnan(n[1])
+    assert np.issubdtype(a.dtype, np.floating) and not np.issubdtype(b.dtype, np.floating)
+    assert np.issubdtype(b.dtype, np.integer) and not np.issubdtype(b.dtype, np.unsignedinteger)
+    assert not np.issubdtype(c.dtype, np.integer) and not np.issubdtype(c.dtype, np.str_)
+    assert np.iinfo(b.dtype).min == -(2 ** 63) and np.iinfo(np.uint8).max == 255 and np.iinfo(np.int16).min == -32768
+    assert np.iinfo(int).max == 2 ** 63 - 1 and np.iinfo(np.uint).max == 2 ** 64 - 1
+    k = np.array(["b", "alpha"]).astype("S")
+    assert k.dtype.kind == "S" and np.char.decode(k)[1] == "alpha" and np.char.decode(k).dtype.kind == "U"
+    d = np.array([{"q": x}, None])
+    assert d.dtype == "O" and d.shape == (2,) and d[1] is None and d[0]["q"] == x
+    assert np.array([[], []]).shape == (2, 0) and np.array([]).dtype.kind == "f"
